@@ -583,8 +583,18 @@ func (x *runner) runBindServer(c bindServerCase) {
 						lastDefaultResource = j.Resourcepart()
 					}
 				}
-				if err != nil {
-					x.res.Fail("C12/bind/server/error-after-reply", fmt.Sprintf("the request was answered but negotiation failed: %v", err), c)
+				if c.Verdict == "stanza-error" {
+					// the error was reported to the peer; nothing was bound, so the
+					// step fails with the callback's stanza error and the session is
+					// not ready
+					var se stanza.Error
+					if !errors.As(err, &se) || se.Condition != stanzaErr.Condition || s.State()&xmpp.Ready != 0 {
+						x.res.Fail("C12/bind/server/error-reply-outcome", fmt.Sprintf("the callback's stanza error was sent, but the negotiation returns err=%v, ready=%v (want that stanza error, not ready)", err, s.State()&xmpp.Ready != 0), c)
+					}
+				} else if err != nil {
+					x.res.Fail("C12/bind/server/error-after-reply", fmt.Sprintf("the request was answered with an address but negotiation failed: %v", err), c)
+				} else if s.State()&xmpp.Ready == 0 {
+					x.res.Fail("C12/bind/server/not-ready-after-bind", "a resource was bound but the session is not ready", c)
 				}
 			}
 		}
@@ -810,5 +820,143 @@ func (x *runner) genBindServer(r *hx.Rand) bindServerCase {
 		req = "<iq" + iqns + attrs + " xml:lang='en' id='second'>" + payload + "</iq>"
 	}
 	c.Request = hx.Hex([]byte(req))
+	return c
+}
+
+// ---- receiving side, several negotiations with one feature value ----
+
+// bindManyCase: 2-5 sessions served with one and the same BindResource()
+// StreamFeature value (and negotiator), as a server does: every negotiation
+// must draw its own random resource.
+type bindManyCase struct {
+	Kind     string   `json:"kind"`
+	S2S      bool     `json:"s2s"`
+	Froms    []string `json:"froms"`
+	Requests []string `json:"requests_hex"`
+	Texts    []string `json:"requests,omitempty"`
+}
+
+func (x *runner) runBindMany(c bindManyCase) {
+	iqns := nsClient
+	if c.S2S {
+		iqns = nsServer
+	}
+	feature := xmpp.BindResource()
+	neg := xmpp.NewNegotiator(func(*xmpp.Session, *xmpp.StreamConfig) xmpp.StreamConfig {
+		return xmpp.StreamConfig{Features: []xmpp.StreamFeature{feature}}
+	})
+	state := xmpp.Secure | xmpp.Authn
+	if c.S2S {
+		state |= xmpp.S2S
+	}
+	c.Texts = nil
+	tbl := parseTable{}
+	var negs, outs []string
+	seen := map[string]int{}
+	modelOK := true
+	x.res.Count("bindm|"+fmt.Sprint(c.S2S, c.Froms, c.Requests), true, "bind/many", fmt.Sprintf("bind/many/%d", len(c.Requests)))
+	for i := range c.Requests {
+		req := hx.UnHex(c.Requests[i])
+		c.Texts = append(c.Texts, string(req))
+		from := ""
+		if i < len(c.Froms) {
+			from = c.Froms[i]
+		}
+		hdr := "<stream:stream xmlns='" + iqns + "' xmlns:stream='" + nsStream + "' version='1.0' to='example.net'"
+		if from != "" {
+			hdr += " from='" + xmlEsc(from) + "'"
+		}
+		hdr += ">"
+		conn := &scriptConn{answer: map[int]bool{1: true}, chunks: []func([]byte) []byte{static(hdr), static(string(req))}}
+		var s *xmpp.Session
+		var err error
+		if p := hx.Catch(func() { s, err = xmpp.ReceiveSession(context.Background(), conn, state, neg) }); p != "" {
+			x.res.Fail("C12/bind/server/panic", "bind panics on the receiving side: "+p, c)
+			return
+		}
+		if s == nil {
+			return
+		}
+		remote := s.RemoteAddr()
+		replyBytes := conn.segment(2)
+		if conn.next < 2 {
+			replyBytes = nil
+		}
+		replyNodes, replyOK := parseNodes(replyBytes, iqns)
+		rid := ""
+		if replyOK && len(replyNodes) == 1 {
+			for _, k := range replyNodes[0].Kids {
+				for _, kk := range k.Kids {
+					if kk.Text == nil && kk.Local == "jid" {
+						t := nodeText(kk)
+						if j := strings.Index(t, "/"); j >= 0 && strings.HasPrefix(t, remote.Bare().String()+"/") {
+							rid = t[len(remote.Bare().String())+1:]
+						}
+					}
+				}
+			}
+		}
+		// ---- oracle: a fresh resource per negotiation ----
+		if !remote.Equal(jid.JID{}) {
+			if err != nil || rid == "" {
+				x.res.Fail("C12/bind/server/default-address", fmt.Sprintf("negotiation %d with a shared feature value: err=%v, reply %q", i+1, err, replyBytes), c)
+			} else if prev, dup := seen[rid]; dup {
+				x.res.Fail("C12/bind/server/resource-not-fresh", fmt.Sprintf("negotiations %d and %d performed with the same BindResource() value were both assigned the resourcepart %q", prev, i+1, rid), c)
+			} else {
+				seen[rid] = i + 1
+			}
+		}
+		// ---- model case ----
+		item, node := coqItem(req, iqns)
+		if node != nil {
+			tbl.addNode(*node)
+		} else {
+			modelOK = false
+		}
+		var replyToks []Tok
+		if replyOK {
+			replyToks = flattenAll(replyNodes)
+		} else if len(replyBytes) > 0 {
+			replyToks = []Tok{{K: "directive"}}
+		}
+		negs = append(negs, fmt.Sprintf("(%s, %s, %s)", coqJID(remote), item, cb(rid)))
+		outs = append(outs, fmt.Sprintf("(%s, %s)", coqBres(bindClass(err)), coqToks(replyToks)))
+	}
+	if modelOK {
+		x.bm.Add(fmt.Sprintf("mkbmcase %s %s %s %s", tbl.coq(), hx.CoqBool(c.S2S), coqList(negs), coqList(outs)), c)
+	}
+	x.res.Sample(c)
+}
+
+func (x *runner) genBindMany(r *hx.Rand) bindManyCase {
+	// (c2s only: a receiving s2s session with no origin set refuses a header that has a "from")
+	c := bindManyCase{Kind: "bindm"}
+	n := 2 + r.Intn(4)
+	account := genJID(r, 100, 0).Bare()
+	for i := 0; i < n; i++ {
+		from := account // several clients of one account
+		if r.Chance(1, 3) {
+			from = genJID(r, 90, 30)
+		}
+		f := from.String()
+		if r.Chance(1, 12) {
+			f = "" // (no address for this peer: the default bind fails)
+		}
+		c.Froms = append(c.Froms, f)
+		iqns := ""
+		if c.S2S {
+			iqns = " xmlns='jabber:server'"
+		}
+		id := fmt.Sprintf("%x", r.Uint64()>>44)
+		if r.Chance(1, 4) {
+			id = "bind1" // clients tend to use the same ids
+		}
+		res := pick(r, resources)
+		payload := "<bind xmlns='" + nsBind + "'><resource>" + xmlEsc(res) + "</resource></bind>"
+		if res == "" {
+			payload = "<bind xmlns='" + nsBind + "'/>"
+		}
+		c.Requests = append(c.Requests, hx.Hex([]byte("<iq"+iqns+" type='set' id='"+xmlEsc(id)+"'>"+payload+"</iq>")))
+	}
 	return c
 }
